@@ -65,6 +65,9 @@ type InputRec struct {
 	Label string `json:"label"`
 	W     uint8  `json:"w"`
 	Env   bool   `json:"env,omitempty"` // created by the engine's environment model (time.Now), not by a vf* call: no native vector slot
+	// Internal inputs are created by intrinsics (e.g. crypto/rand bytes), not by a vf* call: the native
+	// replay never reads them from the vector, so they are left out of it.
+	Internal bool `json:"internal,omitempty"`
 }
 
 type Observation struct {
